@@ -252,3 +252,16 @@ uint8_t vfr_int_bounds_ok(uint8_t strict, uint8_t sc, uint8_t sub, uint8_t slb) 
   int holds = strict ? ((gz2_t)v * c.d < c.n) : ((gz2_t)v * c.d <= c.n);
   return (holds == ((gz2_t)v <= ub.n)) && ((!holds) == ((gz2_t)v >= lb.n));
 }
+/* SMT-LIB (Euclidean) integer division: n = d*q + r, 0 <= r < |d| */
+uint8_t vfr_is_euclid_div(fr_m *q, uint8_t sn, uint8_t sd) {
+  fr_val_t n = fr_slot[sn % FR_SLOTS], d = fr_slot[sd % FR_SLOTS], v = fr_value(q);
+  if (v.d != 1 || d.n == 0) return 0;
+  gz2_t r = n.n - d.n * v.n, ad = d.n < 0 ? -d.n : d.n;
+  return r >= 0 && r < ad;
+}
+uint8_t vfr_is_euclid_mod(fr_m *m, uint8_t sn, uint8_t sd) {
+  fr_val_t n = fr_slot[sn % FR_SLOTS], d = fr_slot[sd % FR_SLOTS], v = fr_value(m);
+  if (v.d != 1 || d.n == 0) return 0;
+  gz2_t ad = d.n < 0 ? -d.n : d.n;
+  return v.n >= 0 && v.n < ad && (n.n - v.n) % d.n == 0;
+}
